@@ -93,7 +93,11 @@ def _case(rng):
             # the right operand is a one-step / one-layer file: numpy stretches it along that axis (masks included)
             from . import c04
             s2 = c04._slice_spec(s2, rng.choice(long), 0, 1)
-        return dict(kind=kind, op=op, f1=s1, f2=s2, coords=coords, early=rng.random() < 0.3)
+        # the right operand may declare a coordinate of its own that is a data variable of the left one: what is computed
+        # is decided by the left operand
+        data2 = [v['name'] for v in s2['vars'] if v['name'] not in coords]
+        rcoords = [rng.choice(data2)] if data2 and rng.random() < 0.2 else []
+        return dict(kind=kind, op=op, f1=s1, f2=s2, coords=coords, rcoords=rcoords, early=rng.random() < 0.3)
     if kind == 'mask':
         for v in spec['vars']:
             if v['name'] not in coords:
@@ -237,15 +241,25 @@ def _maskvals_case(rng):
     that are already masked), incl. 'where,<expression over the variables>': oracle only"""
     n = rng.randint(3, 6)
     steps = [rng.choice([['greater', rng.randint(4, 8)], ['less', rng.randint(1, 3)], ['equal', rng.randint(0, 9)],
-                         ['where', 'A[:]>%d' % rng.randint(3, 7)], ['where', '(A[:]+B[:])<%d' % rng.randint(3, 9)]])
+                         ['where', 'A[:]>%d' % rng.randint(3, 7)], ['where', '(A[:]+B[:])<%d' % rng.randint(3, 9)],
+                         # a condition with a reduction: it is evaluated once, on the variables as they are before the step
+                         ['where', 'A[:]>A[:].mean()'], ['where', 'A[:]>=(A[:].min()+A[:].max())/2.']])
              for _ in range(rng.randint(1, 2))]
     return dict(kind='maskvals', n=n, a=[rng.randint(0, 9) for _ in range(n)], b=[rng.randint(0, 9) for _ in range(n)],
                 premask=[rng.random() < 0.25 for _ in range(n)], steps=steps, coords=[])
 
 
+def _masktr_case(rng):
+    """mask(where=condition over (y, x)) on a square grid that also holds a field laid out (x, y): the condition belongs to the
+    variables of its dimension tuple, in that order (oracle only)"""
+    n = rng.randint(2, 4)
+    return dict(kind='masktr', n=n, coords=[], a=[rng.randint(0, 9) for _ in range(n * n)], at=[rng.randint(0, 9) for _ in range(n * n)],
+                bits=[rng.randint(0, 1) for _ in range(n * n)], bydims=rng.random() < 0.6, greater=rng.choice([None, None, 7]))
+
+
 def gen(rng, tier):
     n = 300 if tier == 'quick' else 10000
-    return [_case(rng) for _ in range(n)] + [_chain_case(rng) for _ in range(n // 6)] + [_twice_case(rng) for _ in range(n // 15)] + \
+    return [_masktr_case(rng) for _ in range(max(3, n // 60))] + [_case(rng) for _ in range(n)] + [_chain_case(rng) for _ in range(n // 6)] + [_twice_case(rng) for _ in range(n // 15)] + \
         [_extreme_case(rng) for _ in range(n // 10)] + [_maskvals_case(rng) for _ in range(n // 10)] + \
         [_reflect_case(rng) for _ in range(max(4, n // 30))]
 
@@ -341,6 +355,33 @@ def impl(case):
                 finally:
                     right.close()
                     os.remove(path)
+            if case['kind'] == 'masktr':
+                import PseudoNetCDF as pnc
+                n = case['n']
+                f = pnc.PseudoNetCDFFile()
+                f.createDimension('y', n)
+                f.createDimension('x', n)
+                va = f.createVariable('A', 'd', ('y', 'x'))
+                va[:] = np.array(case['a'], dtype='d').reshape(n, n)
+                vt = f.createVariable('AT', 'd', ('x', 'y'))
+                vt[:] = np.array(case['at'], dtype='d').reshape(n, n)
+                cond = np.array(case['bits'], dtype=bool).reshape(n, n)
+                kw = dict(where=cond)
+                if case['bydims']:
+                    kw['dims'] = ('y', 'x')
+                else:
+                    cv = f.createVariable('COND', 'd', ('y', 'x'))
+                    cv[:] = cond
+                    kw['where'] = f.variables['COND'][:] > 0.5
+                    kw['dims'] = f.variables['COND'].dimensions
+                if case['greater'] is not None:
+                    kw['greater'] = case['greater']
+                o = f.mask(**kw)
+                out = {}
+                for k in ('A', 'AT'):
+                    r = o.variables[k][...]
+                    out[k] = dict(mask=np.ma.getmaskarray(r).ravel().tolist(), data=np.ma.getdata(r).astype('d').ravel().tolist())
+                return dict(vars=out)
             if case['kind'] == 'maskvals':
                 import PseudoNetCDF as pnc
                 from PseudoNetCDF.core._functions import mask_vals
@@ -382,7 +423,8 @@ def impl(case):
                             o = o.mask(**{st[1]: st[2]})
                 return dict(obs=pfile.observe(o), coords_after=list(o.getCoords()))
             if case['kind'] == 'binop':
-                f1, f2 = _build(case['f1'], case['coords'], case.get('early')), _build(case['f2'], case['coords'], case.get('early'))
+                f1 = _build(case['f1'], case['coords'], case.get('early'))
+                f2 = _build(case['f2'], list(case['coords']) + list(case.get('rcoords') or []), case.get('early'))
                 with np.errstate(all='ignore'):
                     o = eval('f1 %s f2' % OPS[case['op']])
             elif case['kind'] == 'mask':
@@ -417,7 +459,7 @@ def impl(case):
 
 def to_line(case, res):
     co = '.'.join(case['coords']) or '-'
-    if case['kind'] in ('extreme', 'maskvals', 'reflect'):
+    if case['kind'] in ('extreme', 'maskvals', 'reflect', 'masktr'):
         return 'c06 nop'            # no model question: float32 range / the legacy helper, judged by the oracle
     if case['kind'] == 'twice':
         return 'c06 twice %s %s %s' % (case['how'], case['var'], ' '.join(pfile.encode(case['spec'])))
@@ -453,7 +495,7 @@ def _strip_flags(text):
 
 
 def agree(case, out, res):
-    if case['kind'] in ('extreme', 'maskvals', 'reflect'):
+    if case['kind'] in ('extreme', 'maskvals', 'reflect', 'masktr'):
         return None
     if 'err' in res:
         return None if out.startswith('err') else 'impl raised %s (%s), model %s' % (res['err'], res.get('msg'), out[:80])
@@ -542,6 +584,17 @@ def oracle(case, res):
             bad.append('A is %s, expected %s' % (res['A'], want))
         if bad:
             return 'plain file %s reader-class file: %s' % (OPS[case['op']], '; '.join(bad))
+        return None
+    if case['kind'] == 'masktr':
+        n = case['n']
+        cond = np.array(case['bits'], dtype=bool).reshape(n, n)
+        for k, vals, hit in (('A', case['a'], cond.ravel()), ('AT', case['at'], np.zeros(n * n, dtype=bool))):
+            vals = np.array(vals, dtype='d')
+            want = hit | ((vals > case['greater']) if case['greater'] is not None else False)
+            if res['vars'][k]['mask'] != want.tolist():
+                return 'mask(where over (y, x)%s): variable %s%s is missing at %s, the condition and predicates give %s' % (
+                    ', greater=%s' % case['greater'] if case['greater'] is not None else '', k, '(x, y)' if k == 'AT' else '(y, x)',
+                    res['vars'][k]['mask'], want.tolist())
         return None
     if case['kind'] == 'maskvals':
         A = np.ma.masked_array(np.array(case['a'], dtype='d'), mask=case['premask'])
